@@ -212,6 +212,7 @@ class DataFrameSchemaBackend(PandasSchemaBackend):
             _orig_coerce = getattr(
                 schema_component, "_coerce", schema_component.coerce
             )
+            _orig_drop_invalid_rows = schema_component.drop_invalid_rows
 
             try:
                 if schema.dtype is not None:
@@ -221,6 +222,11 @@ class DataFrameSchemaBackend(PandasSchemaBackend):
                 # disable coercion at the schema component level since the
                 # dataframe-level schema already coerced it.
                 schema_component.coerce = False  # type: ignore
+
+                # rows are dropped by the dataframe-level schema from the
+                # errors collected here: a component dropping them in its own
+                # copy of the data would only hide those errors
+                schema_component.drop_invalid_rows = False  # type: ignore
 
                 result = schema_component.validate(
                     check_obj, lazy=lazy, inplace=True
@@ -252,6 +258,7 @@ class DataFrameSchemaBackend(PandasSchemaBackend):
                 # revert the schema component mutations
                 schema_component.dtype = _orig_dtype
                 schema_component.coerce = _orig_coerce
+                schema_component.drop_invalid_rows = _orig_drop_invalid_rows
 
         assert all(check_passed)
         return check_results
